@@ -39,6 +39,18 @@ CLAIMS.update({
          "language says it runs; decides the 'unevaluated operands have no side effects' clause, not truth tables.", "§4 C09"),
 })
 
+CLAIMS.update({
+ "C14": ("effect analysis (P-EFFECT over the resolved call graph with CHA), static/hash-iteration site review tables, field-coverage check of clear()",
+         "R14a: only exempt functions reach clock/RNG/env/host/net/fs callees from resolve or compile; R14b: shared mutable statics are reviewed; "
+         "R14c: every RandomState hash iteration site is reviewed order-insensitive or structurally sorted; R14e: Runtime::clear clears all state. "
+         "Found three real nondeterminism defects (fixed) and five by-design clock reads (known findings).", "§4 C14"),
+ "C34": ("table agreement: SIDE_EFFECT_FUNCTIONS (read from const MIR) vs pure() constants and P-EFFECT write atoms of all 203 functions",
+         "R34a-c: every impure or target/variable-writing closure-less function is in the checker's side-effect table and the table has no unknown names.", "§4 C34"),
+ "C36": ("who-may-call / effect analysis of Context::timezone and chrono::Local + def-use check of the explicit-argument default",
+         "R36a-d: the configured zone can enter results only through the frozen set of wall-clock interpreters, and only as the default of an absent "
+         "explicit `timezone` argument.", "§4 C36"),
+})
+
 NA = {}
 
 def main():
